@@ -459,6 +459,18 @@ fn gen_c04(rng: &mut Rng) -> Plan {
     if rng.chance(1, 2) {
         gen::retarget_changes(rng, &mut plan);
     }
+    // the application's event loop has a ticker of its own: it waits for the next event only
+    // until the next tick and then starts a new wait (unfinished `next()` futures are dropped)
+    if rng.chance(1, 6) {
+        plan.consumer = Consumer::Ticking {
+            period_ms: *rng.pick(&[1u64, 1, 2, 3, 7]),
+            until_ms: (gen::rough_span(&plan)
+                .max(plan.changes.iter().map(|c| c.at_ms).max().unwrap_or(0))
+                + 300)
+                .min(4000),
+            form: rng.below(3) as u8,
+        };
+    }
     // rarely: a flood of notifications while the application is not polling its receiver
     if rng.chance(1, 200) {
         let n = *rng.pick(&[1025usize, 1100, 2050]);
